@@ -215,6 +215,12 @@ def one_case(ctx, rec, kind, pos, now, sid, names, header_len, hs_support, legs,
             except Exception as e:  # noqa
                 results[flavour] = ("err", canon_exc(e) + ": " + str(e)[:80])
         transcripts[flavour] = transcript(dc)
+        # the security context of every authenticated connection is fed the server's tokens in order: nothing, then srv-1, srv-2, …
+        for pr in providers:
+            want_fed = [None] + [b"srv-%d" % (i + 1) for i in range(len(pr.fed) - 1)]
+            got_fed = [None if x is None else bytes(x) for x in pr.fed]
+            if results[flavour][0] == "ok" and (got_fed != want_fed or len(pr.fed) != legs):
+                ctx.violation("the security context is not fed the server's tokens in order", dict(inp, flavour=flavour), str(got_fed), str([None] + [b"srv-%d" % (i + 1) for i in range(legs - 1)]))
         sign = hs_support
         if results[flavour][0] == "ok":
             ids = pos if kind == "unprotect" else (-1, -1, -1)
@@ -273,7 +279,7 @@ def run(ctx):
                     reps = 3 if ctx.thorough else 1
                     for _ in range(reps):
                         one_case(ctx, rec, kind, rng.choice(positions), rng.choice(positions), rng.choice(sids), rng.choice(names), rng.choice([16, 28, 60, 76]),
-                                 rng.random() < 0.7, rng.choice([2, 2, 3]), public, cases, chunked=rng.random() < 0.5)
+                                 rng.random() < 0.7, rng.choice([2, 2, 3, 4]), public, cases, chunked=rng.random() < 0.5)
                         n += 1
         # every relation between the blob's position and the DC's clock (the reply is positioned by the DC's 'now'):
         # same position, later L2 in the same L1, the next L1 with a smaller / larger L2, two L1s on, L2 = 31 shapes, the next L0
@@ -283,7 +289,7 @@ def run(ctx):
         for i, (pos, now) in enumerate(rel):
             rec = fast[i % len(fast)]
             for at_now in (False, True):
-                one_case(ctx, rec, "unprotect", pos, now, sids[0], names[2], 16, True, 2, False, cases, chunked=False, reply_at_now=at_now)
+                one_case(ctx, rec, "unprotect", pos, now, sids[0], names[2], 16, True, 2 + (i + int(at_now)) % 4, False, cases, chunked=False, reply_at_now=at_now)
                 ctx.count("blob_vs_dc_clock_relation:" + ("reply positioned at the DC clock" if at_now else "reply positioned at the request"))
                 n += 1
         ctx.count("online_cases", n)
